@@ -9,6 +9,7 @@ def run(ctx):
     bridge.warm_up()
     quick = ctx.tier == "quick"
     editcheck.run_histories(ctx, ORACLES, 4000 if quick else 100000)
+    editcheck.run_histories(ctx, ORACLES, 60 if quick else 3000, tag="big", fft="big")
     editcheck.run_histories(ctx, ORACLES, 16 if quick else 600, tag="fft", fft=True)
     editcheck.run_workloads(ctx, ORACLES, 96 if quick else 3000)
     ctx.cov["rule"] = ("seeded edit histories (placement of 1-8 data points, then 0-30 moves: data-point move, prune-regraft, subtree "
